@@ -46,6 +46,8 @@ def close_scenarios():
         raised = None
         try:
             await sock.close()
+        except KeyboardInterrupt:
+            raise
         except BaseException as e:  # noqa: BLE001
             raised = e
         open_after = sock.is_open
@@ -110,6 +112,8 @@ def write_scenarios():
         n0 = len(w.writes)
         try:
             await sock.send(bad, S.RETRY_IDEMPOTENT)
+        except KeyboardInterrupt:
+            raise
         except BaseException:  # noqa: BLE001
             pass
         await asyncio.sleep(0.1)
@@ -331,6 +335,8 @@ def heartbeat_scenarios():
         try:
             await mgr.stop()
             await mgr.stop()
+        except KeyboardInterrupt:
+            raise
         except BaseException as e:  # noqa: BLE001
             raised = e
         forgot = len(mgr._heartbeat_tasks) == 0 and len(sock.subs) == 0
@@ -394,6 +400,8 @@ def oblige_from(h, fns, names=None, prefix=""):
     for fn in fns:
         try:
             r = fn()
+        except KeyboardInterrupt:
+            raise   # the wall-clock watchdog of the native reading (pyvc.replay.NativeTimeout)
         except BaseException as e:  # noqa: BLE001
             h.oblige(f"schedule {fn.__name__} runs", False, detail=f"{type(e).__name__}: {e}")
             continue
